@@ -167,9 +167,56 @@ def _normalise_ratio(P: Poly, Q: Poly) -> Tuple[Poly, Poly]:
         if mq2 == ONE_M:
             return P, POLY_ONE
         return P, Q
+    # exact multivariate division (e.g. (h*x - l*x) / (h - l) == x)
+    quo = poly_exact_div(P, Q)
+    if quo is not None:
+        return quo, POLY_ONE
     # normalise leading coefficient of Q to 1
     lead = Q[0][1]
     return poly_scale(P, 1 / lead), poly_scale(Q, 1 / lead)
+
+
+def poly_exact_div(P: Poly, Q: Poly):
+    """Quotient if Q divides P exactly (lexicographic leading-term division), else None."""
+    atoms = sorted({a for poly in (P, Q) for m, _ in poly for a, _e in m}, key=skey)
+    if len(atoms) > 12 or len(P) > 60 or len(Q) > 20:
+        return None
+    idx = {a: i for i, a in enumerate(atoms)}
+
+    def vec(m):
+        v = [0] * len(atoms)
+        for a, e in m:
+            v[idx[a]] = e
+        return tuple(v)
+
+    def mono(v):
+        return tuple((atoms[i], e) for i, e in enumerate(v) if e != 0)
+
+    p = {vec(m): c for m, c in P}
+    q = {vec(m): c for m, c in Q}
+    if any(e < 0 for v in list(p) + list(q) for e in v):
+        return None
+    lq = max(q)
+    quo: Dict[tuple, Fraction] = {}
+    steps = 0
+    while p:
+        steps += 1
+        if steps > 400:
+            return None
+        lp = max(p)
+        if any(a < b for a, b in zip(lp, lq)):
+            return None  # leading term not divisible: not an exact division
+        d = tuple(a - b for a, b in zip(lp, lq))
+        c = p[lp] / q[lq]
+        quo[d] = quo.get(d, F(0)) + c
+        for vq, cq in q.items():
+            v = tuple(a + b for a, b in zip(vq, d))
+            nv = p.get(v, F(0)) - c * cq
+            if nv == 0:
+                p.pop(v, None)
+            else:
+                p[v] = nv
+    return _poly_from_dict({mono(v): c for v, c in quo.items()})
 
 
 def mk_num(P: Poly, Q: Poly = POLY_ONE) -> Term:
@@ -449,6 +496,9 @@ def mk_or(items: Iterable[Term]) -> Term:
 
 
 def mk_ite(c: Term, a: Term, b: Term) -> Term:
+    cv = const_value(c)
+    if cv is not None:
+        return a if cv != 0 else b
     if c == TRUE:
         return a
     if c == FALSE:
